@@ -41,7 +41,14 @@ class Input(symval.Node):
                 if len(bad) > 1:
                     ctx.pin_from(start)
                 self.fields.append((n, key, flag, "valid", node, ft))
-        self.strangers = [(s, ctx.new("p", "bool"), symval.Const(1)) for s in strangers] if len(bad) < 2 else []
+        extra = [f.name for f in __import__("dataclasses").fields(T) if not f.init]
+        self.strangers = [(s, ctx.new("p", "bool"), symval.Const(1)) for s in list(strangers) + extra] if len(bad) < 2 else []
+        # under allow_deserialization_not_by_alias the field NAME is a second accepted key
+        self.by_name = []
+        if oracle.cfg(T, "allow_deserialization_not_by_alias", False) and len(bad) < 2:
+            for n, key, flag, mode, node, ft in self.fields:
+                if key != n:
+                    self.by_name.append((n, ctx.new("p", "bool"), ctx.new("i", "int")))
 
     def make(self, env):
         r = pick(env[self.root], len(NON_DICTS) + 1)
@@ -55,6 +62,9 @@ class Input(symval.Node):
         for s, flag, node in self.strangers:
             if env[flag]:
                 d[s] = node.make(env)
+        for n, flag, val in getattr(self, "by_name", []):
+            if env[flag]:
+                d[n] = env[val]
         return d
 
 
